@@ -61,6 +61,62 @@ pub fn run(case: &Value) -> Value {
                 Err(e) => json!({"ok": false, "doc_err": format!("{:?}", e)}),
             }
         }
+        "chardata" => chardata(case),
         _ => json!({"error": format!("unknown op {}", op)}),
+    }
+}
+
+
+fn res_unit(r: Result<(), xml_dom::error::Error>) -> Value {
+    match r {
+        Ok(()) => json!({"ok": true}),
+        Err(e) => json!({"ok": false, "err": format!("{:?}", e)}),
+    }
+}
+
+/// character-data operation on a text / comment / CDATA node that is a child of <r>
+fn chardata(case: &Value) -> Value {
+    use xml_dom::{AsNode, CharacterData, CharacterDataMut, Document, DocumentMut, Node, NodeMut, TextMut};
+    let kind = case["kind"].as_str().unwrap_or("text");
+    let content = case["content"].as_str().unwrap_or("");
+    let method = case["method"].as_str().unwrap_or("length");
+    let offset = case["offset"].as_u64().unwrap_or(0) as usize;
+    let count = case["count"].as_u64().unwrap_or(0) as usize;
+    let arg = case["arg"].as_str().unwrap_or("");
+    let (_, doc) = xml_dom::XmlDocument::from_raw("<r/>").unwrap();
+    let root = doc.document_element().unwrap();
+    macro_rules! run {
+        ($node:expr, $split:expr) => {{
+            let node = $node;
+            root.append_child(node.as_node()).unwrap();
+            let mut out = match method {
+                "length" => json!({"ok": true, "value": node.length()}),
+                "substring_data" => match node.substring_data(offset, count) {
+                    Ok(v) => json!({"ok": true, "value": v}),
+                    Err(e) => json!({"ok": false, "err": format!("{:?}", e)}),
+                },
+                "insert_data" => res_unit(node.insert_data(offset, arg)),
+                "delete_data" => res_unit(node.delete_data(offset, count)),
+                "replace_data" => res_unit(node.replace_data(offset, count, arg)),
+                "append_data" => res_unit(node.append_data(arg)),
+                "set_data" => res_unit(node.set_data(arg)),
+                "split_text" => $split(&node),
+                _ => json!({"error": "unknown method"}),
+            };
+            out["data"] = json!(node.data().unwrap_or_default());
+            out["children"] = json!(root.child_nodes().iter().map(|c| c.node_value().ok().flatten().unwrap_or_default()).collect::<Vec<String>>());
+            out
+        }};
+    }
+    match kind {
+        "text" => run!(doc.create_text_node(content), |n: &xml_dom::XmlText| match n.split_text(offset) {
+            Ok(t) => json!({"ok": true, "value": t.data().unwrap_or_default()}),
+            Err(e) => json!({"ok": false, "err": format!("{:?}", e)}),
+        }),
+        "cdata" => run!(doc.create_cdata_section(content), |n: &xml_dom::XmlCDataSection| match n.split_text(offset) {
+            Ok(t) => json!({"ok": true, "value": t.data().unwrap_or_default()}),
+            Err(e) => json!({"ok": false, "err": format!("{:?}", e)}),
+        }),
+        _ => run!(doc.create_comment(content), |_n: &xml_dom::XmlComment| json!({"error": "comments have no split_text"})),
     }
 }
